@@ -33,6 +33,10 @@ type Config struct {
 	Cors                 string // "" = off
 	Compression          int    // -1 = leave the default, 0 = off, n = level
 	MaxRequestBytes      int64
+	// CapsInHook: the request/response/externalized caps are not configured
+	// before serving but applied by the serve-start hook when it succeeds
+	// (transport-dependent settings, as the repository's conformance worker does)
+	CapsInHook bool
 	MaxResponseBytes     int64
 	MaxExternalizedBytes int64
 	UploadProvider       bool
@@ -162,6 +166,18 @@ func (w *World) current() *Exchange {
 	return w.cur[t.Name]
 }
 
+func applyCaps(h *vgirpc.HttpServer, cfg Config) {
+	if cfg.MaxRequestBytes > 0 {
+		h.SetMaxRequestBytes(cfg.MaxRequestBytes)
+	}
+	if cfg.MaxResponseBytes > 0 {
+		h.SetMaxResponseBytes(cfg.MaxResponseBytes)
+	}
+	if cfg.MaxExternalizedBytes > 0 {
+		h.SetMaxExternalizedResponseBytes(cfg.MaxExternalizedBytes)
+	}
+}
+
 func (w *World) serveStart(kind vgirpc.TransportKind, _ map[string]bool) error {
 	ex := w.current()
 	inv := &HookInv{Index: len(w.Invs), Ex: ex}
@@ -191,6 +207,10 @@ func (w *World) serveStart(kind vgirpc.TransportKind, _ map[string]bool) error {
 		w.Sim.Fault("serve-start-hook-failure")
 		w.Sim.Logf("serve-start hook invocation %d fails (kind=%s)", inv.Index, kind)
 		return errors.New("scripted serve-start failure")
+	}
+	if w.Cfg.CapsInHook && w.H != nil {
+		applyCaps(w.H, w.Cfg)
+		w.Sim.Probe("caps-applied-by-serve-start-hook")
 	}
 	inv.OK = true
 	w.Succ++
@@ -380,14 +400,8 @@ func New(sim *simkern.Sim, cfg Config) (*World, error) {
 			return nil, err
 		}
 	}
-	if cfg.MaxRequestBytes > 0 {
-		h.SetMaxRequestBytes(cfg.MaxRequestBytes)
-	}
-	if cfg.MaxResponseBytes > 0 {
-		h.SetMaxResponseBytes(cfg.MaxResponseBytes)
-	}
-	if cfg.MaxExternalizedBytes > 0 {
-		h.SetMaxExternalizedResponseBytes(cfg.MaxExternalizedBytes)
+	if !cfg.CapsInHook {
+		applyCaps(h, cfg)
 	}
 	if cfg.ProofRequired {
 		h.SetProxyProofRequired(true)
